@@ -667,7 +667,7 @@ def _split_tuple_assigns(fn):
     rewrite(fn.body)
 
 
-def _propagate_aliases(fn, never_stored=frozenset()):
+def _propagate_aliases(fn, never_stored=frozenset(), stable_globals=frozenset()):
     """A local bound exactly once to a name / attribute chain that is not rooted at self and whose
     root is itself stable is replaced by that chain at its uses (`send = gen.send`,
     `batches = _state.batches`).  Chains rooted at self are NOT propagated: `old = self.field` is a
@@ -698,6 +698,13 @@ def _propagate_aliases(fn, never_stored=frozenset()):
 
     def scan(stmts):
         for s in stmts:
+            if isinstance(s, ast.Assign) and len(s.targets) == 1 and isinstance(s.targets[0], ast.Name) and isinstance(s.value, ast.Name) \
+                    and s.value.id in stable_globals and s.value.id not in stores and s.value.id not in params:
+                # `options = _debug_options`: another name for a module-level object that is bound once, at import
+                nm = s.targets[0].id
+                if stores.get(nm, 0) == 1 and nm not in params and nm != s.value.id:
+                    aliases[nm] = s.value
+                    alias_stmts.append(s)
             if isinstance(s, ast.Assign) and len(s.targets) == 1 and isinstance(s.targets[0], ast.Name) and isinstance(s.value, ast.Attribute) \
                     and _is_chain(s.value):
                 nm = s.targets[0].id
@@ -773,6 +780,109 @@ def _propagate_aliases(fn, never_stored=frozenset()):
             n.end_col_offset = 0
 
 
+def _propagate_self_snapshots(fn):
+    """`x = self.A` followed by uses of x that are all evaluated before anything else can run (no call, yield or await is executed
+    between the read and the use; self.A is not stored in the function) is the same as reading self.A at each use: the local is
+    replaced by the attribute read and the assignment dropped (`error = self._error; if error is not None: reraise(error)`).  A
+    local that is still read after some call has run is a snapshot and is left alone."""
+    nested = set()
+    for n in ast.walk(fn):
+        if isinstance(n, (ast.FunctionDef, ast.AsyncFunctionDef, ast.Lambda, ast.ClassDef, ast.GeneratorExp, ast.ListComp, ast.SetComp, ast.DictComp)) and n is not fn:
+            for y in ast.walk(n):
+                if isinstance(y, ast.Name):
+                    nested.add(y.id)
+    stored_attrs = set(n.attr for n in ast.walk(fn) if isinstance(n, ast.Attribute) and isinstance(n.ctx, (ast.Store, ast.Del)))
+    store_count = {}
+    for n in ast.walk(fn):
+        if isinstance(n, ast.Name) and isinstance(n.ctx, (ast.Store, ast.Del)):
+            store_count[n.id] = store_count.get(n.id, 0) + 1
+        elif isinstance(n, ast.ExceptHandler) and n.name:
+            store_count[n.name] = store_count.get(n.name, 0) + 2
+    params = set(a.arg for a in fn.args.posonlyargs + fn.args.args + fn.args.kwonlyargs)
+
+    def has_exec(e):
+        return any(isinstance(y, (ast.Call, ast.Yield, ast.YieldFrom, ast.Await)) for y in ast.walk(e))
+
+    def mentions(e, x):
+        return sum(1 for y in ast.walk(e) if isinstance(y, ast.Name) and y.id == x and isinstance(y.ctx, ast.Load))
+
+    def scan(stmts, x, dirty):
+        """returns (ok, dirty_after, uses_seen)"""
+        seen = 0
+        for st in stmts:
+            m = mentions(st, x)
+            if dirty:
+                if m:
+                    return False, True, seen
+                continue
+            if isinstance(st, ast.If):
+                if has_exec(st.test):
+                    if mentions(st.test, x):
+                        return False, True, seen
+                    d0 = True
+                else:
+                    seen += mentions(st.test, x)
+                    d0 = False
+                ok1, d1, s1 = scan(st.body, x, d0)
+                ok2, d2, s2 = scan(st.orelse, x, d0)
+                if not (ok1 and ok2):
+                    return False, True, seen
+                seen += s1 + s2
+                dirty = d1 or d2
+                continue
+            if isinstance(st, (ast.Expr, ast.Assign, ast.Return, ast.Raise, ast.AugAssign, ast.AnnAssign, ast.Assert, ast.Pass)):
+                if not has_exec(st):
+                    seen += m
+                    continue
+                # one outermost call whose arguments contain no further call: the arguments are evaluated before it runs
+                v = st.value if isinstance(st, (ast.Expr, ast.Assign, ast.Return, ast.AnnAssign)) else (st.exc if isinstance(st, ast.Raise) else None)
+                if m:
+                    if not (isinstance(v, ast.Call) and not has_exec(v.func) and not any(has_exec(a) for a in list(v.args) + [k.value for k in v.keywords])
+                            and (not isinstance(st, ast.Assign) or all(isinstance(t, ast.Name) for t in st.targets))):
+                        return False, True, seen
+                    seen += m
+                dirty = True
+                continue
+            # loops, try, with, ...: anything may run
+            if m:
+                return False, True, seen
+            dirty = True
+        return True, dirty, seen
+
+    def rewrite(stmts):
+        k = 0
+        while k < len(stmts):
+            st = stmts[k]
+            for fld in ("body", "orelse", "finalbody"):
+                sub = getattr(st, fld, None)
+                if isinstance(sub, list) and not isinstance(st, (ast.FunctionDef, ast.AsyncFunctionDef, ast.ClassDef)):
+                    rewrite(sub)
+            for h in getattr(st, "handlers", []) or []:
+                rewrite(h.body)
+            if isinstance(st, ast.Assign) and len(st.targets) == 1 and isinstance(st.targets[0], ast.Name) and isinstance(st.value, ast.Attribute) \
+                    and isinstance(st.value.value, ast.Name) and st.value.value.id == "self" and st.value.attr not in stored_attrs:
+                x = st.targets[0].id
+                total = mentions(fn, x)
+                if store_count.get(x, 0) == 1 and x not in params and x not in nested and total >= 1:
+                    ok, d, seen = scan(stmts[k + 1:], x, False)
+                    if ok and seen == total:
+                        class Rep(ast.NodeTransformer):
+                            def visit_Name(self, node):
+                                if isinstance(node.ctx, ast.Load) and node.id == x:
+                                    return ast.copy_location(copy.deepcopy(st.value), node)
+                                return node
+                        for later in stmts[k + 1:]:
+                            Rep().visit(later)
+                        del stmts[k]
+                        continue
+            k += 1
+    rewrite(fn.body)
+    for n in ast.walk(fn):
+        if not hasattr(n, "lineno") and isinstance(n, (ast.expr, ast.stmt)):
+            n.lineno = fn.lineno
+            n.col_offset = 0
+
+
 def _index_loop_to_for(fn):
     """   i = 0                      i = len(X) - 1
           while i < len(X):          while i >= 0:
@@ -807,6 +917,10 @@ def _index_loop_to_for(fn):
             if isinstance(st, ast.While) and not st.orelse and k >= 1 and len(st.body) >= 2:
                 init = stmts[k - 1]
                 first, last = st.body[0], st.body[-1]
+                step_second = False
+                if not (isinstance(last, ast.AugAssign) and isinstance(last.target, ast.Name)) and isinstance(st.body[1], ast.AugAssign):
+                    # the step right after the element read (`v = X[i]; i -= 1; BODY`): equivalent when BODY does not mention i
+                    last, step_second = st.body[1], True
                 ok = (isinstance(init, ast.Assign) and len(init.targets) == 1 and isinstance(init.targets[0], ast.Name)
                       and isinstance(first, ast.Assign) and len(first.targets) == 1 and isinstance(first.targets[0], ast.Name)
                       and isinstance(first.value, ast.Subscript) and isinstance(first.value.value, ast.Name) and isinstance(first.value.slice, ast.Name)
@@ -824,7 +938,7 @@ def _index_loop_to_for(fn):
                         direction = "reverse"
                     ok = direction is not None
                 if ok:
-                    mid = st.body[1:-1]
+                    mid = st.body[2:] if step_second else st.body[1:-1]
                     for x in walk_body(mid):
                         if isinstance(x, (ast.Continue, ast.Break)):
                             # only those of inner loops are harmless; be conservative
@@ -1118,9 +1232,73 @@ def _partial_to_def(tree):
         walk(fn.body)
 
 
+def _closure_factory_to_def(tree):
+    """T = F(a, b, c), F a module-level function of this module whose whole body is `def inner(...): ...; return inner`, becomes
+    `def T(...): <inner's body with F's parameters replaced by a, b, c>` - the nested def the author could have written in place
+    (the arguments are plain names, attribute chains or constants; inner only reads F's parameters)."""
+    facts = {}
+    for n in tree.body:
+        if not (isinstance(n, ast.FunctionDef) and _simple_sig(n) and not n.decorator_list):
+            continue
+        body = [b for b in n.body if not (isinstance(b, ast.Expr) and isinstance(b.value, ast.Constant))]
+        if len(body) == 2 and isinstance(body[0], ast.FunctionDef) and not body[0].decorator_list and isinstance(body[1], ast.Return) \
+                and isinstance(body[1].value, ast.Name) and body[1].value.id == body[0].name:
+            inner = body[0]
+            ps = [a.arg for a in n.args.args]
+            stored = set(y.id for y in ast.walk(inner) if isinstance(y, ast.Name) and isinstance(y.ctx, (ast.Store, ast.Del)))
+            inner_params = set(a.arg for a in inner.args.posonlyargs + inner.args.args + inner.args.kwonlyargs)
+            if not (set(ps) & (stored | inner_params)) and not n.args.defaults:
+                facts[n.name] = (n, inner, ps)
+    if not facts:
+        return
+
+    def convert(st):
+        if not (isinstance(st, ast.Assign) and len(st.targets) == 1 and isinstance(st.targets[0], ast.Name) and isinstance(st.value, ast.Call)
+                and isinstance(st.value.func, ast.Name) and st.value.func.id in facts):
+            return None
+        c = st.value
+        F, inner, ps = facts[c.func.id]
+        if c.keywords or len(c.args) != len(ps) or not all(_is_chain(a) or isinstance(a, ast.Constant) for a in c.args):
+            return None
+        sub = dict(zip(ps, c.args))
+
+        class Rep(ast.NodeTransformer):
+            def visit_Name(self, node):
+                if isinstance(node.ctx, ast.Load) and node.id in sub:
+                    return ast.copy_location(copy.deepcopy(sub[node.id]), node)
+                return node
+        new = copy.deepcopy(inner)
+        new.name = st.targets[0].id
+        new.body = [Rep().visit(b) for b in new.body]
+        ast.copy_location(new, st)
+        for y in ast.walk(new):
+            if isinstance(y, (ast.expr, ast.stmt)):
+                y.lineno = st.lineno
+                y.col_offset = getattr(st, "col_offset", 0)
+                y.end_lineno = getattr(st, "end_lineno", st.lineno)
+                y.end_col_offset = getattr(st, "end_col_offset", 0)
+        return new
+
+    def walk(stmts):
+        for k, st in enumerate(list(stmts)):
+            n = convert(st)
+            if n is not None:
+                stmts[k] = n
+                continue
+            for fld in ("body", "orelse", "finalbody"):
+                sub_ = getattr(st, fld, None)
+                if isinstance(sub_, list) and not isinstance(st, ast.ClassDef):
+                    walk(sub_)
+            for h in getattr(st, "handlers", []) or []:
+                walk(h.body)
+    for fn in [n for n in tree.body if isinstance(n, (ast.FunctionDef, ast.AsyncFunctionDef))]:
+        walk(fn.body)
+
+
 def normalize_module(tree):
     _kwargs_to_positional(tree)
     _partial_to_def(tree)
+    _closure_factory_to_def(tree)
     for fn in [n for n in ast.walk(tree) if isinstance(n, (ast.FunctionDef, ast.AsyncFunctionDef))]:
         _lower_ifexp(fn)
     for fn in [n for n in ast.walk(tree) if isinstance(n, (ast.FunctionDef, ast.AsyncFunctionDef))]:
@@ -1132,8 +1310,26 @@ def normalize_module(tree):
     stored_anywhere = set(n.attr for n in ast.walk(tree) if isinstance(n, ast.Attribute) and isinstance(n.ctx, (ast.Store, ast.Del)))
     class_level = set(t.id for c in ast.walk(tree) if isinstance(c, ast.ClassDef) for st in c.body if isinstance(st, ast.Assign)
                       for t in st.targets if isinstance(t, ast.Name) and isinstance(st.value, (ast.Dict, ast.List, ast.Set, ast.Call)))
+    # module-level names bound exactly once at import time and never rebound through `global`
+    counts = {}
+    for st in tree.body:
+        for n in ([st] if isinstance(st, (ast.Assign, ast.AnnAssign, ast.AugAssign, ast.Import, ast.ImportFrom, ast.FunctionDef, ast.ClassDef)) else ast.walk(st)):
+            if isinstance(n, ast.Assign):
+                for t in n.targets:
+                    for y in ast.walk(t):
+                        if isinstance(y, ast.Name):
+                            counts[y.id] = counts.get(y.id, 0) + 1
+            elif isinstance(n, (ast.AnnAssign, ast.AugAssign)) and isinstance(n.target, ast.Name):
+                counts[n.target.id] = counts.get(n.target.id, 0) + (2 if isinstance(n, ast.AugAssign) else 1)
+    for n in ast.walk(tree):
+        if isinstance(n, ast.Global):
+            for x in n.names:
+                counts[x] = counts.get(x, 0) + 2
+    stable = frozenset(k for k, v in counts.items() if v == 1)
     for fn in [n for n in ast.walk(tree) if isinstance(n, (ast.FunctionDef, ast.AsyncFunctionDef))]:
-        _propagate_aliases(fn, frozenset(class_level - stored_anywhere))
+        _propagate_self_snapshots(fn)
+    for fn in [n for n in ast.walk(tree) if isinstance(n, (ast.FunctionDef, ast.AsyncFunctionDef))]:
+        _propagate_aliases(fn, frozenset(class_level - stored_anywhere), stable)
 
 
 # ------------------------------------------------------------------------------------------
